@@ -676,6 +676,11 @@ func (iv *IV) lenBounds(x ssa.Value, b *ssa.BasicBlock, depth int) (lo, hi *big.
 				n := bi(arr.Len())
 				return n, n
 			}
+			if _, ok := at.Elem().Underlying().(*types.Array); ok && x.Low == nil && x.High != nil {
+				if k, isC := constInt(x.High); isC {
+					return k, k
+				}
+			}
 		}
 	}
 	if p, ok := x.Type().Underlying().(*types.Pointer); ok {
